@@ -199,10 +199,15 @@ CLAIMS = {
     "C15": dict(
         text="Theorem C15_fresh_equiv: for every history of run_trace calls (successes and failures mixed, any initial "
              "instance state) each call returns what a fresh instance returns; proved over reset/copy flags regenerated "
-             "from the behaviour of initialize()/run_trace on every run. The no-retroactive-mutation half is partial: it is "
-             "about aliasing, checked on the implementation by deep-copy comparison of earlier results after every later call.",
-        note=TB + "Partial: object identity/aliasing is not modelled in Lean.",
-        technique="Lean 4 theorem over regenerated shape flags + history-based differential correspondence",
+             "from the behaviour of initialize()/run_trace on every run. Theorem C15_no_retro_mutation on the model with object "
+             "identity (Model/ReuseHeap.lean: list and action objects, in-place append / add_waypoint, shallow copy on return): "
+             "what is seen through a list returned by a call is unchanged after any further history of successful and failing "
+             "calls; C15_heap_refines: that object-level model returns exactly runTrace of the kernel's operations. Tie: call "
+             "histories on one real instance vs fresh instances, and deep-copy comparison of earlier results after every later call.",
+        note=TB + "Which objects the real tracer allocates and mutates is modelled (Model/ReuseHeap.lean, read from taskgen.py); the "
+                  "two flags the argument hinges on (fresh list in initialize, copy on return) are regenerated by observation.",
+        technique="Lean 4 theorems (value-level history equivalence; frame/ownership invariant on an object heap model) over "
+                  "regenerated shape flags + history-based differential correspondence",
         ref="§3 C15"),
     "C16": dict(
         text="C16_replay: for every program, arguments and fuel on which the evaluator succeeds, the renderer receives one "
